@@ -211,7 +211,11 @@ def run_plan(plan_path, outdir):
             rec = {"id": mid, "file": rel, "line": m["line"], "kind": m["kind"], "old": m["old"], "new": m["new"]}
             test_cmd = (f"cargo test -p {pkg} --offline --lib" if crate_dir != "analysis"
                         else "cargo build -p alpha-g-analysis --offline")
-            rc, out = sh(test_cmd, cwd=WT, env=env, timeout=1800)
+            try:
+                rc, out = sh(test_cmd, cwd=WT, env=env, timeout=900)
+            except subprocess.TimeoutExpired:
+                sh("pkill -f /tmp/mut-target/debug/deps || true")
+                rc, out = 1, "test result: FAILED (timeout: the mutant does not terminate)"
             if rc != 0:
                 rec["status"] = "killed-by-tests" if "test result: FAILED" in out or "panicked" in out else "does-not-compile"
             else:
@@ -222,7 +226,11 @@ def run_plan(plan_path, outdir):
                 rec["diff"] = dpath
                 rec["checks"] = {}
                 for c in item["checks"]:
-                    rc2, out2 = sh(f"VERIF_REPO={WT} /verif/check {c} --tier quick", cwd="/verif", timeout=3600)
+                    try:
+                        rc2, out2 = sh(f"VERIF_REPO={WT} /verif/check {c} --tier quick", cwd="/verif", timeout=5400)
+                    except subprocess.TimeoutExpired:
+                        sh("pkill -f target_alt/ || true")
+                        rc2, out2 = 1, "VIOLATION (the check did not come back: timeout) no-failing-input-found"
                     v = [x for x in out2.splitlines() if x.startswith("VIOLATION")]
                     rec["checks"][c] = {"violation": bool(v), "nfi": any("no-failing-input-found" in x for x in v),
                                         "first": [x[:200] for x in out2.splitlines() if "problem [" in x][:2]}
